@@ -22,6 +22,7 @@ pub fn canon_tree(t: &Node) -> Node {
     let mut x = t.clone();
     match x.k.as_str() {
         "num" => x.a = crate::decode::num_value(&x.a),
+        "table" if x.a.is_empty() && x.c.len() > 1 => x.a = ",".repeat(x.c.len() - 1),
         "raw" => {
             // raw literal token: classify by first char
             let c = x.a.as_bytes().first().cloned().unwrap_or(b' ');
@@ -149,7 +150,7 @@ fn process_inner(case: &Value) -> Vec<Value> {
             return evs;
         }
     };
-    let range = parse_range(case.get("range").unwrap_or(&Value::Null));
+    let mut range = parse_range(case.get("range").unwrap_or(&Value::Null));
     let want = |w: &str| case.get("want").and_then(|x| x.as_array()).map_or(false, |a| a.iter().any(|x| x.as_str() == Some(w)));
 
     // ---- Render
@@ -179,6 +180,17 @@ fn process_inner(case: &Value) -> Vec<Value> {
     };
     let small = src.len() <= SMALL;
     let in_ast = fm_parse(&src, &cfg);
+    // symbolic range markers are resolved against the statements of the parsed input
+    let mut range_json = case.get("range").cloned().unwrap_or(Value::Null);
+    if let (Some(rm), Ok(ast)) = (case.get("range_markers"), in_ast.as_ref()) {
+        let recs = stmts::collect(ast);
+        let s = rm.get("start").and_then(|m| m.as_str()).and_then(|m| stmts::resolve_marker(m, &recs, src.len()));
+        let e = rm.get("end").and_then(|m| m.as_str()).and_then(|m| stmts::resolve_marker(m, &recs, src.len()));
+        if s.is_some() || e.is_some() {
+            range = Some(Range::from_values(s, e));
+            range_json = json!({"start": s, "end": e.map(|x| if x > (1usize << 30) { 1u64 << 30 } else { x as u64 })});
+        }
+    }
     let in_tree = in_ast.as_ref().ok().map(project::p_ast);
     let expected = gen_tree.as_ref().map(canon_tree);
     let spec_match: Value = match (&expected, &in_tree) {
@@ -188,7 +200,7 @@ fn process_inner(case: &Value) -> Vec<Value> {
     let mut render_ev = json!({
         "ev": "Render", "id": id, "meta": meta, "in_parse": if in_ast.is_ok() { "ok" } else { "err" },
         "spec_match": spec_match, "len": src.len(),
-        "cfg": case.get("cfg").cloned().unwrap_or(json!({})), "range": case.get("range").cloned().unwrap_or(Value::Null),
+        "cfg": case.get("cfg").cloned().unwrap_or(json!({})), "range": range_json,
         "valid_expected": case.get("valid").cloned().unwrap_or(Value::Null),
     });
     if small || want("src") {
@@ -198,6 +210,7 @@ fn process_inner(case: &Value) -> Vec<Value> {
     }
     if let Some(t) = &gen_tree {
         let toks = render::tokens(t);
+        let layout = render::resolve_layout(&toks, &layout);
         render_ev["ntok"] = json!(toks.len());
         let class = |s: &str| -> String {
             let c = s.chars().next().unwrap_or(' ');
